@@ -3,6 +3,7 @@ package checks
 import (
 	"context"
 	"fmt"
+	"net"
 	"runtime"
 	"strings"
 	"sync"
@@ -34,7 +35,7 @@ type c16 struct{ base }
 
 func init() {
 	core.Register(c16{base{id: "C16", race: true, level: "exploration", quickB: 16, thoroughB: 32,
-		rule:        "forced schedules = full product of connection state {idle, mid-message (header sent), a finished command followed in the same segment by part of the next message, parked at cmd:received, parked at cmd:admitted, inside parser, inside statement function, inside COPY read} x Close callers {1,2,3,8} x Close start {free, first arrivals parked at close:checked until all callers entered} x message kind {simple Query (single statement / three statements), Parse, Execute}, each on a fresh server (exhaustive in both tiers); after all Close calls returned a further query is sent on the same and on a new connection (boundary, no hooks). Also 100-520 connections that stay open and idle while Close is called: Close and Serve must return while they are all still connected. Stress = rounds of 1-16 connections firing queries while 1-4 goroutines call Close at PRNG-chosen moments, with random yields at every schedule point and transport operation, under the race detector. Non-trivial = schedule where Close overlaps an in-flight command or another Close; distinct = schedule tuple, for stress the hash of the global (actor,event) order.",
+		rule:        "forced schedules = full product of connection state {idle, mid-message (header sent), a finished command followed in the same segment by part of the next message, parked at cmd:received, parked at cmd:admitted, inside parser, inside statement function, inside COPY read} x Close callers {1,2,3,8} x Close start {free, first arrivals parked at close:checked until all callers entered} x message kind {simple Query (single statement / three statements), Parse, Execute}, each on a fresh server (exhaustive in both tiers); after all Close calls returned a further query is sent on the same and on a new connection (boundary, no hooks). One slice per batch runs over real loopback sockets through the library's own ListenAndServe (session served, Close returns, ListenAndServe returns nil). Also 100-520 connections that stay open and idle while Close is called: Close and Serve must return while they are all still connected. Stress = rounds of 1-16 connections firing queries while 1-4 goroutines call Close at PRNG-chosen moments, with random yields at every schedule point and transport operation, under the race detector. Non-trivial = schedule where Close overlaps an in-flight command or another Close; distinct = schedule tuple, for stress the hash of the global (actor,event) order.",
 		need:        []string{"forced_schedules", "close_overlaps_running_handler", "close_overlaps_admission", "concurrent_close_groups", "post_close_queries", "stress_rounds", "race_detector_active_batches", "serve_returned_nil"},
 		assumptions: append([]string{"for several concurrent Close calls the wait/finality guarantees are asserted once all of them have returned; the settle period used before releasing a parked goroutine only affects detection power, never soundness"}, commonAssumptions...)}})
 }
@@ -643,6 +644,108 @@ func (ch c16) multiListener(c *core.Ctx, nl int) {
 	c.Eval(fmt.Sprintf("listeners=%d", nl), true)
 }
 
+// realTCP: one slice over real loopback sockets and the library's own ListenAndServe: a session is
+// served, Close returns, ListenAndServe returns nil. Reading uses generous
+// socket deadlines; their expiry is inconclusive, never a violation.
+func (ch c16) realTCP(c *core.Ctx) {
+	e := &c16env{entered: make(chan string, 8)}
+	var srv *wire.Server
+	var conn net.Conn
+	var done chan error
+	var addr string
+	for attempt := 0; attempt < 6 && conn == nil; attempt++ {
+		// a free loopback port is probed and handed to ListenAndServe; a parallel batch may grab it
+		// in between, in which case another port is tried
+		l, err := net.Listen("tcp", "127.0.0.1:0")
+		if err != nil {
+			break
+		}
+		addr = l.Addr().String()
+		l.Close()
+		srv, err = wire.NewServer(ch.parseFn(e), wire.Logger(hs.Quiet))
+		if err != nil {
+			c.Violate("startup", "NewServer failed", err.Error(), nil)
+			return
+		}
+		done = make(chan error, 1)
+		go func(srv *wire.Server, addr string, done chan error) { done <- srv.ListenAndServe(addr) }(srv, addr, done)
+	dial:
+		for i := 0; i < 500; i++ {
+			if cn, derr := net.Dial("tcp", addr); derr == nil {
+				conn = cn
+				break
+			}
+			select {
+			case <-done:
+				break dial // could not bind: next attempt
+			case <-time.After(10 * time.Millisecond):
+			}
+		}
+		if conn == nil {
+			srv.Close()
+		}
+	}
+	if conn == nil {
+		c.Count("real_tcp_unavailable", 1)
+		return
+	}
+	defer conn.Close()
+	var acc []byte
+	until := func(last byte) (string, bool) { // reads until a complete message of the given type ends the stream
+		buf := make([]byte, 4096)
+		for {
+			if msgs, rest, perr := pg.ParseStream(acc); perr == nil && rest == 0 && len(msgs) > 0 && msgs[len(msgs)-1].T == last {
+				k := pg.Types(msgs)
+				acc = nil
+				return k, true
+			}
+			conn.SetReadDeadline(time.Now().Add(20 * time.Second))
+			n, rerr := conn.Read(buf)
+			acc = append(acc, buf[:n]...)
+			if rerr != nil {
+				return replyKinds(acc), false
+			}
+		}
+	}
+	conn.Write(pg.Startup([][2]string{{"user", "tcp"}}))
+	if k, ok := until('Z'); !ok {
+		c.Violate("real-tcp", "startup over a loopback socket not served", k, nil)
+		return
+	}
+	conn.Write(pg.Query("plain"))
+	if k, ok := until('Z'); !ok || k != "TDCZ" {
+		c.Violate("real-tcp", "query over a loopback socket not served", k, nil)
+		return
+	}
+	closed := make(chan struct{})
+	go func() { srv.Close(); close(closed) }()
+	for _, w := range []struct {
+		what string
+		ch   <-chan struct{}
+	}{{"Close did not return", closed}} {
+		select {
+		case <-w.ch:
+		case <-time.After(30 * time.Second):
+			_, lib := core.ClassifyHang()
+			c.Violate("deadlock", w.what+" (loopback sockets, one idle connection): "+strings.Join(lib, "; "), "", nil)
+			c.Finish()
+		}
+	}
+	select {
+	case lerr := <-done:
+		if lerr != nil {
+			c.Violate("serve-error", "ListenAndServe returned a non-nil error after Close", lerr.Error(), nil)
+		}
+	case <-time.After(30 * time.Second):
+		_, lib := core.ClassifyHang()
+		c.Violate("serve-hang", "ListenAndServe did not return after Close: "+strings.Join(lib, "; "), "", nil)
+		c.Finish()
+	}
+	// (no late dial to the freed port: a parallel batch may have bound it in the meantime)
+	c.Count("real_tcp_slices", 1)
+	c.Eval("real-tcp", true)
+}
+
 func (ch c16) manyIdle(c *core.Ctx, n int) {
 	cs := map[string]any{"idle_connections": n}
 	e := &c16env{entered: make(chan string, 8)}
@@ -732,6 +835,9 @@ func (ch c16) Run(c *core.Ctx) {
 	// still connected (the accept loop ends with the listener, not with the clients)
 	if c.Begin(70000) && c.NViol() < 10 {
 		ch.manyIdle(c, []int{100, 128, 257, 300, 520}[c.Batch%5])
+	}
+	if c.Begin(70001) && c.NViol() < 10 {
+		ch.realTCP(c)
 	}
 	rounds := 1600
 	if c.Tier == "thorough" {
